@@ -92,4 +92,27 @@ def appendTorn (classify : Bytes → LineClass) (encode : Event → Bytes) (f : 
 /-- `replaceEventsAtomically`: the log name points to a complete new file (or still to the old one) -/
 def replaceFile (encode : Event → Bytes) (evs : List Event) : Bytes := linesOf encode evs
 
+
+/-! ### a lock-free reader, read by read
+
+`readEvents` does not get the file in one piece: the scanner issues `read(2)` calls one after the other while writers go on.
+What the reader ends up with is a function of the successive contents of *the file it opened* (an inode: a rename gives the name to a
+new file and leaves this one alone) and of how much each `read` returned. -/
+
+/-- one `read(2)` of at most `n` bytes at offset `off` from content `f` -/
+def readAt (f : Bytes) (off n : Nat) : Bytes := (f.drop off).take n
+
+/-- the bytes a reader collects: its i-th read finds the open file with content `versions[i]` and asks for `sizes[i]` bytes -/
+def chunkedRead : List (Bytes × Nat) → Bytes → Bytes
+  | [], acc => acc
+  | (f, n) :: rest, acc => chunkedRead rest (acc ++ readAt f acc.length n)
+
+/-- what a writer may do to a file that readers may have open: only add bytes at its end (`appendEvents`' single write, the '\n' that
+    completes an unterminated final event) — never change or remove bytes that are there.  Dropping a torn fragment and every rewrite
+    (`plan`, `compact`) go to a *new* file that is renamed over the log. -/
+def GrowsOnly : List Bytes → Prop
+  | [] => True
+  | [_] => True
+  | a :: b :: rest => a <+: b ∧ GrowsOnly (b :: rest)
+
 end Ergo.Storage
